@@ -596,8 +596,13 @@ class TagAttrDict(Dict[str, "str | HTML"]):
             return ""
         # Return both str and HTML objects as is.
         # HTML objects will handle value escaping when added to other values
-        if isinstance(x, (str, HTML)):
+        if isinstance(x, HTML):
             return x
+        if isinstance(x, str):
+            # An instance of a str subclass (e.g. a member of an Enum with a str mixin) is
+            # stored as the plain text it holds: its own str()/format() may say something
+            # else, and the attribute writer formats the value.
+            return x if type(x) is str else str.__str__(x)
         if isinstance(x, (int, float)):  # pyright: ignore[reportUnnecessaryIsInstance]
             return str(x)
         raise TypeError(
